@@ -23,6 +23,14 @@ ASSUMPTIONS = [
     "a function whose only remaining block is a documented retained zero-sized block may stay in the tables",
 ]
 BUDGET = {"quick": (6000, 40), "thorough": (250000, 540)}
+RULE += (
+    " Inserted functions are called by patches and by each other (by name"
+    " or by an alias label) and their return edges are compared with the"
+    " call sites; 12% of the scenarios with functions run without the"
+    " functionBlocks table (caller-provided Function objects; entries and"
+    " names are judged), half of the function-less modules have no"
+    " function tables at all."
+)
 REQUIRED_COUNTERS = ["applies", "instruction_attributions_compared",
                      "entries_compared", "inserted_functions_compared"]
 
